@@ -60,6 +60,9 @@ traces are compared as before).  var = rv + 8 * cv:
   op (9 s how)                    NOT a write (oracle only): 0 maybe_update(|_| false), 1 write() + untrack(), 2 try_maybe_update -> (false, _),
                                   3 update_untracked(|_| {}), 4 write_untracked() guard dropped
   op (10 e k)                     the effect declared by template k is created now, under the owner of effect e (oracle only)
+  op (12 g r s v)                 another THREAD takes a read guard (read_untracked()) of ArcMemo g; then signal s is set to v; then a third
+                                  thread reads ArcMemo r (g, or a memo over g) with get_untracked(): the read may wait for the guard, its
+                                  value must be current (oracle only; last op of a case: bodies that run on those threads are not logged)
   case (prog ops flags)           flags: 1 every poll hands the task a new waker (older ones are dead), 2 untrack_with_diagnostics,
                                   4 before every (3 k) / (4) each task that is NOT ready is polled once (spurious wake-up: nothing may happen)
   template (5 decl)               decl may carry the variant field of its kind: (1 cmp flavour expr var) / (3 kind body handler -1 var)
@@ -517,6 +520,15 @@ def valid_ops(prog, ops):
             if (len(o) != 3 or not (0 <= o[1] < len(prog)) or prog[o[1]][0] != SIG or not is_plain(prog[o[1]])
                     or o[1] in gone or o[2] not in (0, 1, 2, 3, 4)):
                 return False
+        elif k == 12:
+            if len(o) != 5 or o is not ops[-1] or any(not (isinstance(x, int) and 0 <= x < len(prog) and prog[x][0] == MEMO and prog[x][2] == 0
+                                                           and var_of(prog[x]) // 8 != 2 and x not in gone) for x in o[1:3]):
+                return False
+            if not (isinstance(o[3], int) and 0 <= o[3] < len(prog) and prog[o[3]][0] == SIG and prog[o[3]][1] in (0, 3, 4)
+                    and isinstance(o[4], int)):
+                return False
+            if any(nd[0] == MEMO and nd[1] == 2 for nd in prog):
+                return False
         elif k == 10:
             if len(o) != 3 or not (0 <= o[1] < len(prog)) or prog[o[1]][0] != EFF or prog[o[1]][1] == 5:
                 return False
@@ -551,7 +563,7 @@ def valid_case(item):
         return False
     if len(c) == 3 and c[2] not in (0, 1, 2, 3, 4, 5, 6, 7):
         return False
-    if item.get("compare") and any(o and o[0] in (9, 10) for o in c[1] if isinstance(o, list)):
+    if item.get("compare") and any(o and o[0] in (9, 10, 12) for o in c[1] if isinstance(o, list)):
         return False          # the model has no such operation
     if not valid_prog(c[0]) or not valid_ops(c[0], c[1]):
         return False
@@ -976,6 +988,28 @@ def add_cleanups(rng, prog, p=0.5):
         j = rng.choice(other) if other and rng.random() < 0.85 else rng.choice(sigs)
         nd[2] = [4, nd[2], [10, j]] if rng.random() < 0.5 else [4, [10, j], nd[2]]
     return prog
+
+
+def gen_threads_case(rng):
+    """ArcMemos over Arc signals; between writes a memo is read on another thread while a third thread holds a read
+    guard of it (or of the memo below it)"""
+    prog = [[0, rng.choice([0, 4, 3]), rng.randint(0, 3)], [0, rng.choice([0, 4]), rng.randint(0, 3)]]
+    memos = []
+    for _ in range(rng.randint(1, 3)):
+        src = rng.choice(memos) if memos and rng.random() < 0.6 else 0
+        body = rng.choice([[1, src], [4, [1, src], [0, rng.randint(0, 2)]], [4, [1, src], [1, src]], [4, [1, src], [1, 1]]])
+        # (no coarse comparator: the bodies that run on the other threads are not logged, so the oracle cannot know
+        # which value of a parity class a subscriber legitimately kept)
+        prog.append([1, rng.choice([0, 0, 1]), 0, body] + ([8] if rng.random() < 0.3 else []))
+        memos.append(len(prog) - 1)
+    ops = [[2, memos[-1]]] if rng.random() < 0.8 else []
+    for _ in range(rng.randint(0, 2)):
+        ops.append([0, rng.choice([0, 0, 1]), rng.randint(0, 6)])
+        ops.append([2, rng.choice(memos)])
+    r = rng.choice(memos)
+    below = [m for m in memos if m <= r]
+    ops.append([12, rng.choice(below) if rng.random() < 0.5 else r, r, 0, rng.randint(7, 9)])
+    return [prog, ops]
 
 
 def gen_cleanup_case(rng):
@@ -1547,6 +1581,13 @@ class Walker:
                 pass                      # not a write: nothing happens
             elif k == 10:
                 self.adopt(o[1], o[2])
+            elif k == 12:
+                self.do_write(o[3], o[4], -1)
+                v = self.read(-1, o[2], True, False)
+                e = self.take(0)
+                if e[1] != o[2] or e[2] != v:
+                    raise Malformed("cross-thread read event %r" % (e,))
+                self.hooks.top(self, o[2], v)
             self.hooks.after_op(self, o)
         if self.pos != len(self.tr):
             raise Malformed("trailing events from %d: %r" % (self.pos, self.tr[self.pos:self.pos + 3]))
@@ -2191,7 +2232,7 @@ def describe(item):
                 h = "" if nd[1] not in (2, 3) else " handler %s" % show_expr(nd[3])
                 own = "" if parent_of(nd) is None else " [owner under n%d's]" % nd[4]
                 out.append("n%d = %s(%s)%s%s%s" % (i, ek[nd[1] % 7], show_expr(nd[2]), h, own, show_var(nd)))
-        on = ["set", "notify", "read", "poll#", "run-to-idle", "pause", "resume", "dispose", "dispose-source", "not-a-write", "create-under-owner-of"]
+        on = ["set", "notify", "read", "poll#", "run-to-idle", "pause", "resume", "dispose", "dispose-source", "not-a-write", "create-under-owner-of", "?", "read-on-another-thread-while-a-guard-is-held"]
         os_ = []
         for o in ops:
             os_.append(on[o[0]] + ("(" + ",".join(str(x) for x in o[1:]) + ")" if len(o) > 1 else ""))
